@@ -171,6 +171,215 @@ def world_term(w) -> str:
     return "[" + "; ".join(f"({z(a)}, {z(b)})" for a, b in w) + "]"
 
 
+# ------------------------------------------------------------------ two-variable rule programs (implementation vs Spec)
+# c ranges over connection-like objects C2(k, parent), b over bodies B2(a).  Exactly one refinement J of the program
+# "joins" b (`b == c.parent` is its first condition); atoms with attr 1 mean b.a and may occur only in J and below it;
+# every rule carries "sel": which variables its conclusion is built from (0: p=c, 1: q=b, 2: p=c and q=b; 1/2 only in
+# J and below).  Since b is determined by c, the Spec is the one-variable `rdr` over the elements (c.k, c.parent.a), one
+# per connection; an inferred instance is (tag, index of c or -1, index of b or -1) and instances are compared as a SET
+# (the property does not say whether two bindings that agree on every constructor argument give one instance or two).
+@dataclass(eq=False)
+class B2:
+    a: int
+
+
+@dataclass(eq=False)
+class C2:
+    k: int
+    parent: B2 = None
+
+
+@dataclass(eq=False)
+class View2:
+    p: C2 = None
+    q: B2 = None
+
+
+VIEWS2 = [dataclass(eq=False)(type(f"W{i}", (View2,), {})) for i in range(NTAGS)]
+TAG2_OF = {c: i for i, c in enumerate(VIEWS2)}
+
+
+def run_case2(case) -> list:
+    from krrood.entity_query_language.entity import let, entity, inference
+    from krrood.entity_query_language.quantify_entity import an
+    from krrood.entity_query_language.conclusion import Add
+    from krrood.entity_query_language import rule as R
+    from krrood.entity_query_language.symbolic import SymbolicExpression
+
+    SymbolicExpression._symbolic_expression_stack_.clear()
+    bs = [B2(a) for a in case["bs"]]
+    cs = [C2(k, bs[pi]) for k, pi in case["cs"]]
+    ci = {id(x): i for i, x in enumerate(cs)}
+    bi = {id(x): i for i, x in enumerate(bs)}
+    keep = []
+    try:
+        c = let(C2, cs, name="c")
+        b = let(B2, bs, name="b")
+        views = inference(View2)()
+
+        def operand(attr):
+            return c.k if attr == 0 else b.a
+
+        def conds_of(rule):
+            out = [b == c.parent] if rule.get("join") else []
+            for attr, op, rk, rv in rule["conds"]:
+                out.append(OPS[op](operand(attr), rv if rk == 0 else operand(rv)))
+            return out
+
+        def conclusion(rule):
+            kw = {0: {"p": c}, 1: {"q": b}, 2: {"p": c, "q": b}}[rule.get("sel", 0)]
+            return inference(VIEWS2[rule["tag"]])(**kw)
+
+        q = an(entity(views, *conds_of(case["prog"])))
+
+        def body(rule):
+            if rule["tag"] is not None:
+                Add(views, conclusion(rule))
+            for kind, sub in rule["body"]:
+                with getattr(R, KINDS[kind])(*conds_of(sub)):
+                    body(sub)
+
+        with q:
+            body(case["prog"])
+        out, again, seen = [], [], set()
+        for v in q.evaluate():
+            row = [TAG2_OF.get(type(v), -1), ci.get(id(v.p), -1), bi.get(id(v.q), -1)]
+            (again if id(v) in seen else out).append(row)
+            seen.add(id(v))
+            keep.append(v)
+        return [0, sorted(out), sorted(again)]
+    except Exception as e:  # noqa
+        return [1, exc_code(e)]
+    finally:
+        SymbolicExpression._symbolic_expression_stack_.clear()
+
+
+def encode2(case):
+    """the one-variable program / world the Spec is run on"""
+    def strip(r):
+        return {"conds": r["conds"], "tag": r["tag"], "body": [[k, strip(s)] for k, s in r["body"]]}
+    return {"prog": strip(case["prog"]), "world": [[k, case["bs"][pi]] for k, pi in case["cs"]]}
+
+
+def project2(case, spec_rows):
+    """Spec rows (tag, connection index) -> set of instances (tag, c index or -1, b index or -1)"""
+    sel = {}
+
+    def walk(r):
+        if r["tag"] is not None:
+            sel[r["tag"]] = r.get("sel", 0)
+        for _, s in r["body"]:
+            walk(s)
+
+    walk(case["prog"])
+    out = set()
+    for t, i in spec_rows:
+        pi = case["cs"][i][1]
+        out.add({0: (t, i, -1), 1: (t, -1, pi), 2: (t, i, pi)}[sel[t]])
+    return sorted(list(x) for x in out)
+
+
+def spec2_matches(impl, want) -> bool:
+    if impl[0] != 0 or impl[2]:
+        return False
+    return sorted(list(x) for x in {tuple(r) for r in impl[1]}) == want
+
+
+def gen_case2(rng):
+    vals = list(range(0, 4))
+    # skeleton without next_rule, at least one refinement; prefer refinement-in-refinement
+    for _ in range(50):
+        forest = random_forest(rng, rng.randint(1, 5), 3)
+        prog = fill(rng, forest, [0], vals, notag=0.0)
+        if "N" in sig_of(prog):
+            continue
+        # candidates for J: refinement branches whose own block has no alternative
+        cands = []
+
+        def walk(r):
+            for k, s in r["body"]:
+                if k == "R" and all(k2 == "R" for k2, _ in s["body"]):
+                    cands.append(s)
+                walk(s)
+
+        walk(prog)
+        if cands:
+            break
+    else:
+        prog = fill(rng, [("R", [("R", [])])], [0], vals, notag=0.0)
+        cands = [prog["body"][0][1]]
+    J = rng.choice(cands)
+
+    def set_c_only(r):
+        r["sel"] = 0
+        r["conds"] = [[0, op, 0, rv if rk == 0 else rng.choice(vals)] for _, op, rk, rv in r["conds"]]
+        for _, s in r["body"]:
+            if s is not J:
+                set_c_only(s)
+
+    def set_below(r):
+        r["sel"] = rng.choice([0, 1, 1, 2, 2])
+        r["conds"] = [[rng.choice([0, 1, 1]), op, rk, (rv if rk == 0 else rng.randint(0, 1))] for _, op, rk, rv in r["conds"]]
+        for _, s in r["body"]:
+            set_below(s)
+
+    set_c_only(prog)
+    set_below(J)
+    J["join"] = True
+    nb = rng.randint(1, 4)
+    bs = [rng.choice(vals) for _ in range(nb)]
+    cs = [[rng.choice(vals), rng.randint(0, nb - 1)] for _ in range(rng.randint(1, 7))]
+    return {"two": True, "prog": prog, "bs": bs, "cs": cs}
+
+
+def snippet2(case) -> str:
+    lines = [
+        "from dataclasses import dataclass",
+        "from krrood.entity_query_language.entity import let, entity, inference",
+        "from krrood.entity_query_language.quantify_entity import an",
+        "from krrood.entity_query_language.conclusion import Add",
+        "from krrood.entity_query_language.rule import refinement, alternative, next_rule",
+        "@dataclass(eq=False)\nclass B2:\n    a: int",
+        "@dataclass(eq=False)\nclass C2:\n    k: int\n    parent: B2 = None",
+        "@dataclass(eq=False)\nclass View2:\n    p: C2 = None\n    q: B2 = None",
+    ]
+    tags = []
+
+    def collect(r):
+        if r["tag"] is not None:
+            tags.append(r["tag"])
+        for _, s in r["body"]:
+            collect(s)
+
+    collect(case["prog"])
+    for t in sorted(set(tags)):
+        lines.append(f"@dataclass(eq=False)\nclass W{t}(View2): ...")
+    lines.append("bs = [" + ", ".join(f"B2({a})" for a in case["bs"]) + "]")
+    lines.append("cs = [" + ", ".join(f"C2({k}, bs[{pi}])" for k, pi in case["cs"]) + "]")
+    lines.append("c = let(C2, cs, name='c'); b = let(B2, bs, name='b'); views = inference(View2)()")
+    name = {0: "c.k", 1: "b.a"}
+
+    def conds(r):
+        out = ["b == c.parent"] if r.get("join") else []
+        out += [f"{name[a]} {OPNAMES[o]} " + (str(rv) if rk == 0 else name[rv]) for a, o, rk, rv in r["conds"]]
+        return ", ".join(out)
+
+    lines.append(f"q = an(entity(views, {conds(case['prog'])}))")
+    lines.append("with q:")
+
+    def body(r, ind):
+        pad = "    " * ind
+        kw = {0: "p=c", 1: "q=b", 2: "p=c, q=b"}[r.get("sel", 0)]
+        lines.append(f"{pad}Add(views, inference(W{r['tag']})({kw}))")
+        for k, s in r["body"]:
+            lines.append(f"{pad}with {KINDS[k]}({conds(s)}):")
+            body(s, ind + 1)
+
+    body(case["prog"], 1)
+    lines.append("print(sorted((type(v).__name__, cs.index(v.p) if v.p else -1, bs.index(v.q) if v.q else -1) for v in q.evaluate()))")
+    return "\n".join(lines)
+
+
 # ------------------------------------------------------------------ the check
 PROP = "C08"
 HEADER = """From Coq Require Import List ZArith.
@@ -369,6 +578,44 @@ def case_class(fr) -> str:
     return "K_next"
 
 
+def evaluate2(cases):
+    """two-variable cases: implementation and Spec (no model); returns [(impl, spec instances)]"""
+    from . import core
+    if not cases:
+        return []
+    impl = run_impl_bulk(cases)
+    enc = [encode2(c) for c in cases]
+    vals = core.coq_values(PROP, HEADER_SPEC, [f"spec_sx {rule_term(e['prog'])} {world_term(e['world'])}" for e in enc],
+                           chunk=240, tag="vals2")
+    return [(i, project2(c, s)) for c, i, s in zip(cases, impl, vals)]
+
+
+def dedup2_signature(case, impl, want) -> bool:
+    """narrow signature of the open findings C08-h / C08-i (class K_dedup2), used because the model is one-variable:
+    nothing extra and nothing twice; only instances are MISSING, each of them built from b, with that b shared by at least
+    two connections, in a program that also concludes from b alone."""
+    if impl[0] != 0 or impl[2]:
+        return False
+    got = {tuple(r) for r in impl[1]}
+    wanted = {tuple(r) for r in want}
+    if not got < wanted:
+        return False
+    sels = []
+
+    def walk(r):
+        sels.append(r.get("sel", 0))
+        for _, s in r["body"]:
+            walk(s)
+
+    walk(case["prog"])
+    if 1 not in sels:
+        return False
+    for (_t, _ci, bi) in wanted - got:
+        if bi < 0 or sum(1 for _k, pi in case["cs"] if pi == bi) < 2:
+            return False
+    return True
+
+
 def run(tier: str, seed: int, replay=None) -> int:
     from . import core
     import pathlib
@@ -379,6 +626,8 @@ def run(tier: str, seed: int, replay=None) -> int:
         "harness/c08.py: case builder (real with-blocks), outcome canonicaliser, Gallina printers",
     ]
     rep.assume = [
+        "two-variable programs are NOT covered by the Coq model or the theorems: they are compared implementation vs Spec (rdr over the elements (c.k, c.parent.a)); "
+        "a disagreement is a VIOLATION unless it has the narrow signature of the open findings C08-h/i (only missing instances, each built from a body shared by >= 2 connections, in a program that also concludes from the body alone)",
         "one variable over a domain of distinct objects with two int attributes; conditions are and_-chains of comparisons of an "
         "attribute with a constant or another attribute; every conclusion is Add(views, inference(V_tag)(p=x))",
         "an and_-chain of comparators is one leaf of the model: a comparator found bound re-yields the flag it computed for the same element",
@@ -388,6 +637,8 @@ def run(tier: str, seed: int, replay=None) -> int:
     rep.rule = ("corpus first; then seeded random rule programs: 45% a next_rule-free skeleton and 13% any skeleton sampled from the list of skeletons with <= 4 branches, "
                 "42% a random forest of 1..6 branches, nesting <= 3, kinds R:A:N = 2:2:1; 1-2 atoms per branch over attributes a,b, "
                 "constants -1..3, 8% branches without conclusion; worlds of 0..8 objects with attribute values -1..3 (value-equal twins frequent); "
+                "a second stream of two-variable programs (connection-like c and body b joined by `b == c.parent` in one refinement, conclusions built from c, b or both, "
+                "1..7 connections over 1..4 bodies so that bodies are shared, next_rule-free forests of 1..5 branches, 1200 quick / 10000 thorough) is compared implementation vs Spec only, instances as a set; "
                 "thorough adds every skeleton with <= 4 branches; distinct = distinct (program, world); non-trivial = at least one branch, "
                 "non-empty world and a non-empty Spec answer")
     ok_spec, log = core.coq_make(["Base/Sx.vo", "Eql/RuleSpec.vo"])
@@ -406,16 +657,29 @@ def run(tier: str, seed: int, replay=None) -> int:
     open_classes = {f.cls for f in findings if f.kind == "open"}
 
     cases, origin = [], []
+    cases2, origin2 = [], []
     if replay is not None:
-        cases.append(replay["case"])
-        origin.append("replay")
+        if replay["case"].get("two"):
+            cases2.append(replay["case"])
+            origin2.append("replay")
+        else:
+            cases.append(replay["case"])
+            origin.append("replay")
     else:
         for p in sorted(corpus_dir.glob("*.json")):
             if p.name.startswith("_"):
                 continue
             d = json.loads(p.read_text())
+            if d["case"].get("two"):
+                cases2.append(d["case"])
+                origin2.append(f"corpus/{PROP}/{p.name}")
+                continue
             cases.append(d["case"])
             origin.append(f"corpus/{PROP}/{p.name}")
+        rng3 = core.Rng(seed).fork(28)
+        for _ in range(1200 if tier == "quick" else 10000):
+            cases2.append(gen_case2(rng3))
+            origin2.append("random-two-variable")
         rng = core.Rng(seed).fork(8)
         n_random = 1500 if tier == "quick" else 24000
         for _ in range(n_random):
@@ -492,6 +756,35 @@ def run(tier: str, seed: int, replay=None) -> int:
             if not s_ok and py_simple_fragment(c["prog"]):
                 bad.append((c, org, impl, m, s, fr, "model unavailable; shape of the documented tests"))
 
+    # ---- two-variable programs: implementation vs Spec only
+    try:
+        results2 = evaluate2(cases2)
+    except Exception as e:  # noqa
+        rep.oblige("correspondence:evaluate-two-variable", False, str(e)[:600])
+        results2 = []
+    dist2 = {"cases": len(results2), "refinement_in_refinement": 0, "shared_body": 0, "concl_b_only": 0, "concl_c_and_b": 0,
+             "nonempty_spec": 0, "agree": 0}
+    inst2 = 0
+    for c, org, (impl, want) in zip(cases2, origin2, results2):
+        rep.count("two:" + json.dumps(c, sort_keys=True), bool(want))
+        sg = sig_of(c["prog"])
+        dist2["refinement_in_refinement"] += 1 if "R{R" in sg or "{R{" in sg else 0
+        pis = [pi for _k, pi in c["cs"]]
+        dist2["shared_body"] += 1 if len(set(pis)) < len(pis) else 0
+        txt = json.dumps(c["prog"])
+        dist2["concl_b_only"] += 1 if '"sel": 1' in txt else 0
+        dist2["concl_c_and_b"] += 1 if '"sel": 2' in txt else 0
+        dist2["nonempty_spec"] += 1 if want else 0
+        if spec2_matches(impl, want):
+            dist2["agree"] += 1
+        elif "K_dedup2" in open_classes and dedup2_signature(c, impl, want):
+            inst2 += 1
+        else:
+            bad.append((c, org, impl, None, want, None,
+                        "two-variable program (implementation vs Spec, instances as a set) outside the signature of the open findings C08-h/i"))
+    rep.extra["two_variable_stream"] = dist2
+    inst["K_dedup2"] = inst2
+
     rep.extra["distribution"] = dist
     rep.extra["cases_by_origin"] = by_origin
     rep.extra["same_instance_object_twice"] = stale_notes        # C08-f (fixed): must stay 0
@@ -504,7 +797,7 @@ def run(tier: str, seed: int, replay=None) -> int:
 
     for (c, org, impl, m, s, fr, why) in bad[:5]:
         rep.violation({"kind": "counterexample", "case": c, "origin": org, "impl": impl, "model": m, "spec": sorted(s), "frag": fr,
-                       "why": why, "python": snippet(c),
+                       "why": why, "python": snippet2(c) if c.get("two") else snippet(c),
                        "explanation": "rows are [tag, index of the element in the world]; spec = ripple-down-rules reading of the written program"})
 
     # known findings: replay the witnesses
@@ -512,6 +805,21 @@ def run(tier: str, seed: int, replay=None) -> int:
         wp = core.VERIF / f.witness
         try:
             d = json.loads(wp.read_text())
+            if d["case"].get("two"):
+                (impl, want), = evaluate2([d["case"]])
+                fails = not spec2_matches(impl, want)
+                if f.kind == "open":
+                    if fails and dedup2_signature(d["case"], impl, want) and impl == d.get("impl", impl):
+                        rep.known(f)
+                    elif fails:
+                        rep.violation({"kind": "counterexample", "case": d["case"], "impl": impl, "spec": want,
+                                       "why": f"witness of {f.fid} fails differently from what was recorded", "python": snippet2(d["case"])})
+                    else:
+                        rep.note(f"known finding {f.fid} no longer reproduces on its witness")
+                elif fails:
+                    rep.violation({"kind": "counterexample", "case": d["case"], "impl": impl, "spec": want,
+                                   "why": f"regression of fixed finding {f.fid}", "python": snippet2(d["case"])})
+                continue
             (impl, m, s, fr), = evaluate([d["case"]], model_ok)
         except Exception as e:  # noqa
             rep.oblige(f"finding:{f.fid}", False, f"cannot replay {f.witness}: {e}")
@@ -534,7 +842,7 @@ def run(tier: str, seed: int, replay=None) -> int:
 
 def main():
     cases = json.load(sys.stdin)
-    json.dump([run_case(c) for c in cases], sys.stdout)
+    json.dump([run_case2(c) if c.get("two") else run_case(c) for c in cases], sys.stdout)
 
 
 if __name__ == "__main__":
